@@ -404,7 +404,11 @@ func (e *env) compact(force bool) {
 	ran, err := kv.VerifCompactSync(e.family, force)
 	e.history = append(e.history, fmt.Sprintf("compact force=%v (L0=%d L1=%d before) ran=%v err=%v", force, layBefore.Level0, layBefore.Level1, ran, err))
 	if err != nil {
-		e.fatalf("compaction failed: %v", err)
+		hint := ""
+		if strings.Contains(err.Error(), "series entries length too short") {
+			hint = " [signature " + SigEmptyBucket + "]"
+		}
+		e.fatalf("compaction failed: %v%s", err, hint)
 	}
 	after, layAfter := e.observe()
 	changed := ran && fmt.Sprint(layAfter.FileLevel) != fmt.Sprint(layBefore.FileLevel)
